@@ -471,8 +471,11 @@ func c34(c *Ctx) {
 		var cell *ssa.Alloc
 		for _, b := range sn.Blocks {
 			for _, in := range b.Instrs {
-				if al, ok := in.(*ssa.Alloc); ok && al.Comment == "cancelled" {
-					cell = al
+				// the cancellation flag: the boolean variable of this function that its closures capture
+				if al, ok := in.(*ssa.Alloc); ok && al.Heap {
+					if bt, isB := al.Type().(*types.Pointer).Elem().Underlying().(*types.Basic); isB && bt.Kind() == types.Bool {
+						cell = al
+					}
 				}
 			}
 		}
